@@ -37,6 +37,8 @@ pub enum DKind {
     /// Decode a file that contains `n` Folders whose UniqueIds are all `uid`
     /// (pool index); the result replaces the slot.
     DecodeDupFile { dom: u8, fmt: u8, n: u8, uid: u8 },
+    /// Replace the slot by `WeakDom::new(builder tree)`.
+    NewDom { dom: u8, tree: NodeSpec },
 }
 
 #[derive(Clone, Debug, Serialize, Deserialize, PartialEq)]
@@ -342,6 +344,24 @@ impl Model {
                     return None;
                 }
             }
+            DKind::NewDom { dom, tree } => {
+                let d = *dom as usize;
+                if d >= self.roots.len() || tree.count() >= ID_STRIDE as usize {
+                    return None;
+                }
+                let old = self.dom_nodes(d);
+                for n in &old {
+                    self.nodes.remove(n);
+                }
+                let mut next = 0;
+                let mut out = Vec::new();
+                self.add_spec(d, None, tree, base, &mut next, &mut out);
+                self.roots[d] = base;
+                self.origin[d] = "built".into();
+                eff.removed = old;
+                eff.created = out.clone();
+                eff.entering = Some((d, out));
+            }
             DKind::EncodeDecode { dom, .. } | DKind::DecodeDupFile { dom, .. } => {
                 if *dom as usize >= self.roots.len() {
                     return None;
@@ -491,7 +511,7 @@ impl DomSim {
         let mut model = Model::new(n_doms);
         let mut ops = Vec::new();
         // per-run operation mix
-        let mut w: [u32; 11] = [30, 10, 12, 0, 12, 8, 8, 6, 3, 0, 0];
+        let mut w: [u32; 12] = [30, 10, 12, 0, 12, 8, 8, 6, 3, 0, 0, 2];
         for x in w.iter_mut() {
             if *x > 0 && r.chance(1, 5) {
                 *x = (*x / 4).max(1);
@@ -579,6 +599,10 @@ impl DomSim {
                 }
                 8 => DKind::RawRoundTrip { dom: pick_dom(r) },
                 9 => DKind::EncodeDecode { dom: pick_dom(r), fmt: r.below(2) as u8 },
+                11 => {
+                    let dom = pick_dom(r);
+                    DKind::NewDom { dom, tree: self.gen_builder(r, &model, serial * ID_STRIDE, uid_mode, dom as usize) }
+                }
                 10 => DKind::DecodeDupFile { dom: pick_dom(r), fmt: r.below(2) as u8, n: r.range(2, 4) as u8, uid: r.below(UID_POOL.len() as u64) as u8 },
                 _ => continue,
             };
@@ -855,6 +879,7 @@ impl DomSim {
             }
         }
         world.model.origin[d] = origin.to_string();
+        world.model.roots[d] = d as NodeId;
         created
     }
 
@@ -988,6 +1013,10 @@ impl DomSim {
                         let refs: Vec<Ref> = nodes.iter().map(|n| world_ref.ref_of[n]).collect();
                         let (src, dst) = two_mut(&mut world_ref.doms, s, *dest_dom as usize);
                         returned_ref.extend(src.clone_multiple_into_external(&refs, dst));
+                    }
+                    DKind::NewDom { dom, tree } => {
+                        let b = DomSim::builder_for(world_ref, tree, base);
+                        world_ref.doms[*dom as usize] = WeakDom::new(b);
                     }
                     DKind::RawRoundTrip { dom } => {
                         let d = *dom as usize;
@@ -1427,6 +1456,7 @@ pub fn kind_name(k: &DKind) -> &'static str {
         DKind::CloneInto { .. } => "clone_into_external",
         DKind::CloneMulti { .. } => "clone_multiple_into_external",
         DKind::RawRoundTrip { .. } => "into_raw+from_raw",
+        DKind::NewDom { .. } => "WeakDom::new",
         DKind::EncodeDecode { fmt: 0, .. } => "encode+decode:binary",
         DKind::EncodeDecode { .. } => "encode+decode:xml",
         DKind::DecodeDupFile { fmt: 0, .. } => "decode-duplicate-ids:binary",
@@ -1485,6 +1515,15 @@ impl Engine for DomSim {
                     if cand.name == tree.name || cand.children.len() <= tree.children.len() {
                         let mut c = t.clone();
                         c.ops[i].kind = DKind::Insert { dom: *dom, parent: *parent, tree: cand };
+                        out.push(c);
+                    }
+                }
+            }
+            if let DKind::NewDom { dom, tree } = &t.ops[i].kind {
+                for cand in crate::iosim::shrink_tree(tree) {
+                    if cand.name == tree.name || cand.children.len() <= tree.children.len() {
+                        let mut c = t.clone();
+                        c.ops[i].kind = DKind::NewDom { dom: *dom, tree: cand };
                         out.push(c);
                     }
                 }
